@@ -90,20 +90,38 @@ class C07(Prop):
                 if 'packed' in rp and any('T' in v[2] for v in sh[1]):
                     continue          # a reference to a field of unknown alignment in a packed struct is the user's E0793
                 plans.append((sh, 'attr' if (k + j) % 2 else 'derive', ['Clone'], rp))
+        # explicit bound(...) lists (entry / shared / on a variant; empty, `T`, with `..`): they shape the where-clause,
+        # never which fields are cloned
+        for k, sh in enumerate(shapes()):
+            if not any(v[1] for v in sh[1]):
+                continue
+            for j, how in enumerate(('entry', 'shared', 'variant', 'entry-dots')):
+                if how == 'variant' and not sh[0]:
+                    continue
+                plans.append((sh, 'attr' if (k + j) % 2 else 'derive', ['Clone'], ('bound', how)))
         for (is_enum, vs), mode, tnames, rp in plans:
+            bhow = None
+            if isinstance(rp, tuple):
+                bhow, rp = rp[1], None
             ia = [sx.a_other(rp)] if rp else []
             generic = any('T' in v[2] for v in vs)
             gen = sx.generics([sx.gp_ty('T')]) if generic else None
             if is_enum:
-                it = sx.enum('E', [sx.variant('V%d' % i, fields_s(k, n, pt)) for i, (k, n, pt) in enumerate(vs)], attrs=ia, gen=gen)
+                bl = ([sx.b_ty(sx.tid('T'))] if generic else [])
+                vattr = [sx.a_derive_ex(sx.dx([('Clone', (bl, False))]))] if bhow == 'variant' else []
+                it = sx.enum('E', [sx.variant('V%d' % i, fields_s(k, n, pt), attrs=(vattr if n else []))
+                                   for i, (k, n, pt) in enumerate(vs)], attrs=ia, gen=gen)
                 kw = '(enum ('
             else:
                 it = sx.struct('X', fields_s(*vs[0]), attrs=ia, gen=gen)
                 kw = '(struct ('
-            tl = [(t, None) for t in tnames]
-            req = sx.inv_attr(sx.dx(tl), it) if mode == 'attr' else sx.inv_derive(
-                kw + sx.a_derive_ex(sx.dx(tl)) + ' ' + it[len(kw):])
-            out.append((req, dict(features=('enum' if is_enum else 'struct', mode, '+'.join(tnames), rp or 'no-repr') + tuple('%s%d%s' % (v[0], v[1], v[2] if ('u' in v[2] or 'T' in v[2]) else '') for v in vs),
+            bl = ([sx.b_ty(sx.tid('T'))] if generic else [])
+            targ = (bl, False) if bhow == 'entry' else (bl + [sx.B_DOTS], False) if bhow == 'entry-dots' else None
+            tl = [(t, targ if t == 'Clone' else None) for t in tnames]
+            sb = bl if bhow == 'shared' else None
+            req = sx.inv_attr(sx.dx(tl, bnd=sb), it) if mode == 'attr' else sx.inv_derive(
+                kw + sx.a_derive_ex(sx.dx(tl, bnd=sb)) + ' ' + it[len(kw):])
+            out.append((req, dict(features=('enum' if is_enum else 'struct', mode, '+'.join(tnames), rp or ('bound-' + bhow if bhow else 'no-repr')) + tuple('%s%d%s' % (v[0], v[1], v[2] if ('u' in v[2] or 'T' in v[2]) else '') for v in vs),
                                   enum=is_enum, vs=vs, generic=generic, nontrivial=any(v[1] for v in vs))))
         return out
 
